@@ -85,34 +85,38 @@ func vfSrvMake(scn string) (func(), func(*vsched.Exec) (string, *vsched.Violatio
 			st.logAtServeRet = len(conn.Log)
 			vsched.Note("Serve returned")
 		})
+		// evaluated atomically with the routing step inside the broker, per request id (two publishers
+		// may be inside PublishRequest at the same time, so the hook is installed once and keyed by
+		// the id carried in the frame)
+		beforeStop := map[int]bool{}
+		afterStop := map[int]bool{}
+		conn.OnPublish = func(subj, reply string, data []byte) error {
+			if strings.HasPrefix(subj, "svc") && len(data) == 5 {
+				id := int(data[4])
+				beforeStop[id] = !st.stopCalled
+				afterStop[id] = st.stopReturned
+			}
+			return nil
+		}
 		pub := func(id int) {
 			frame := []byte{0, 0, 0, 1, byte(id)}
-			before := false
-			after := st.stopReturned
 			n0 := len(conn.Log)
-			// evaluated atomically with the routing step inside the broker
 			target := subjectOf(id)
-			conn.OnPublish = func(subj, reply string, data []byte) error {
-				if subj == target {
-					before = !st.stopCalled
-				}
-				return nil
-			}
 			conn.PublishRequest(target, fmt.Sprintf("reply.%d", id), frame)
 			routed := true
-			// a 503 status message right after the request means nobody was subscribed
+			// a 503 status message for this request's reply subject means nobody was subscribed
 			for _, m := range conn.Log[n0:] {
-				if m.Header.Get("Status") == "503" {
+				if m.Header.Get("Status") == "503" && m.Subject == fmt.Sprintf("reply.%d", id) {
 					routed = false
 				}
 			}
-			if before && routed {
+			if beforeStop[id] && routed {
 				st.routedBefore[id] = true
 			}
-			if after {
+			if afterStop[id] {
 				st.afterStop[id] = true
 			}
-			vsched.Note(fmt.Sprintf("published %d routed=%v beforeStop=%v afterStop=%v", id, routed, before, after))
+			vsched.Note(fmt.Sprintf("published %d routed=%v beforeStop=%v afterStop=%v", id, routed, beforeStop[id], afterStop[id]))
 		}
 		vsched.GoNamed("driver", true, func() {
 			conn.WaitSubsEver(cfg["s"])
